@@ -1219,7 +1219,7 @@ func (a *fnA) exitBound(lp *loopInfo, phi *ssa.Phi) (string, bool) {
 		if ls.C[pid] != 1 || len(ls.C) != 1 {
 			continue
 		}
-		if a.taint[large] {
+		if a.taint[large] || a.fromTarget(large, 0) {
 			continue
 		}
 		if _, mentions := a.lin(large).C[pid]; mentions {
@@ -1228,6 +1228,73 @@ func (a *fnA) exitBound(lp *loopInfo, phi *ssa.Phi) (string, bool) {
 		return a.describe(large), true
 	}
 	return "", false
+}
+
+// fromTarget: the value is read from the memory the decoder writes into (a
+// load through one of the function's unsafe.Pointer parameters). What an
+// earlier part of the same input put there - the capacity of a slice that a
+// previous occurrence of the field made large - is input-controlled too, so it
+// bounds no loop.
+func (a *fnA) fromTarget(v ssa.Value, depth int) bool {
+	if depth > 6 {
+		return false
+	}
+	switch x := v.(type) {
+	case *ssa.Convert:
+		return a.fromTarget(x.X, depth+1)
+	case *ssa.ChangeType:
+		return a.fromTarget(x.X, depth+1)
+	case *ssa.BinOp:
+		return a.fromTarget(x.X, depth+1) || a.fromTarget(x.Y, depth+1)
+	case *ssa.UnOp:
+		if x.Op != token.MUL {
+			return false
+		}
+		if fw, ok := a.fwd[x]; ok && fw != ssa.Value(x) {
+			return a.fromTarget(fw, depth+1)
+		}
+		addr := x.X
+		for i := 0; i < 4; i++ {
+			switch y := addr.(type) {
+			case *ssa.FieldAddr:
+				addr = y.X
+				continue
+			case *ssa.Convert:
+				addr = y.X
+				continue
+			case *ssa.ChangeType:
+				addr = y.X
+				continue
+			}
+			break
+		}
+		if prm, ok := addr.(*ssa.Parameter); ok {
+			if b, ok := prm.Type().Underlying().(*types.Basic); ok && b.Kind() == types.UnsafePointer {
+				// unless this function has set that very field on the way here
+				// (h.Len = count before the element loop): then the bound is
+				// what it stored, not what it found
+				if fa, ok := x.X.(*ssa.FieldAddr); ok {
+					for _, bb := range a.fn.Blocks {
+						for _, in := range bb.Instrs {
+							st, ok := in.(*ssa.Store)
+							if !ok {
+								continue
+							}
+							fa2, ok := st.Addr.(*ssa.FieldAddr)
+							if !ok || fa2.Field != fa.Field || !types.Identical(fa2.X.Type(), fa.X.Type()) {
+								continue
+							}
+							if bb != x.Block() && bb.Dominates(x.Block()) {
+								return false
+							}
+						}
+					}
+				}
+				return true
+			}
+		}
+	}
+	return false
 }
 
 // exitBoundDown: phi strictly decreases; the loop stays while phi(+k) > T or
